@@ -4,6 +4,8 @@ import Mathlib.Data.ZMod.Basic
 import CLModel.Model.Issuance
 import Mathlib.Data.Nat.Bitwise
 import Mathlib.Tactic.Linarith
+import CLModel.Proofs.WitnessSig
+import CLModel.Props.C09
 /-!
 # C04 — Issued signatures are valid CL signatures with the prescribed parameters
 
@@ -83,5 +85,28 @@ theorem parameters_match_spec : Gen.LARGE_E_START = 596 ∧ Gen.LARGE_E_END_RANG
 
 /-! non-vacuity: `ℤ/35`-like toy: in `ZMod 5` (additive), `e = 3`, `einv = 2`: `6•x = x` -/
 example : ∀ x : ZMod 5, ((3 : ℤ) * 2) • x = x := by decide
+
+section revocation
+open CL.NR CL.Reg
+
+variable {F : Type} [Field F] [DecidableEq F]
+
+/-- **the issued revocation signature is accepted by the holder-side processing**
+(`sign_credential_with_revoc` → `process_credential_signature` with key, registry and witness),
+pairing side in exponent form over the scalar field: for every key with `pk = g^sk`, `y = ĥ^x`,
+every registry size, every index `i` valid in the state `V` the holder is given (accumulator
+`g'^(Σ_{j∈V} γ^(L+1−j))`, witness `g'^(Σ_{j∈V∖i} γ^(L+1−j+i))` — C09), every context `m2`, every
+`c`, `vr'`, `vr''`, what `_new_non_revocation_credential` computes satisfies all four equations
+of `_test_witness_signature`. -/
+theorem issued_revocation_signature_accepted (k : RevKey F) (x sk γ : F) (L i : ℕ)
+    (hi : InRange L i) (V : Finset ℕ) (hV : i ∈ V) (m2 vr' vr2 c : F)
+    (hpk : k.pk = k.g * sk) (hy : k.y = k.hCap * x) (hsk : sk + γ ^ i ≠ 0) (hx : x + c ≠ 0) :
+    testWitnessSignature ringOps k (k.gDash * accOf γ L V) (k.g * k.gDash * γ ^ (L + 1))
+      (k.g * γ ^ i)
+      (issueCred ringOps (·⁻¹) k x sk γ i m2 vr' vr2 c (k.gDash * witOf γ L i V)) = true := by
+  apply issued_cred_passes k x sk γ i m2 vr' vr2 c _ _ _ hpk hy hsk hx
+  linear_combination (k.g * k.gDash) * C09.valid_passes_check γ L i hi V hV
+
+end revocation
 
 end CL.C04
